@@ -33,7 +33,7 @@ Calls == [f : {"add_plugin", "remove_plugin"}, s : Scopes, x : Plugins]
          \cup [f : {"reset_plugins"}, s : Scopes, x : {0}]
          \cup [f : {"add_contract", "remove_contract"}, s : {""}, x : Contracts]
          \cup [f : {"add_iface", "remove_iface"}, s : {""}, x : Ifaces]
-         \cup [f : {"add_alias"}, s : {""}, x : Aliases]
+         \cup [f : {"add_alias"}, s : {"", "lower"}, x : Aliases]      \* s = "lower": the same alias written in lower case (aliases are case-insensitive)
          \cup [f : {"run", "runauth"}, s : {""}, x : {0}]
          \cup [f : {"compile", "assemble"}, s : Sources, x : {0}]
 
